@@ -62,7 +62,8 @@ pub fn gen_c02(rng: &mut Rng, tier: Tier) -> Case {
             steps.push(CursorStep { cur: 0, op });
         }
     }
-    Case::Cursor(CursorCase { spec, env, steps, fresh_each: true, v1: false })
+    let sparse_hole = crate::props_file::gen_hole(rng, 15);
+    Case::Cursor(CursorCase { spec, env, steps, fresh_each: true, v1: false, sparse_hole })
 }
 
 pub fn check_c02(case: &Case, st: &mut Stats) -> Verdict {
@@ -184,7 +185,8 @@ pub fn gen_c03(rng: &mut Rng, tier: Tier) -> Case {
         // transient-fault family: one read or seek of the source fails somewhere in the history
         env.faults = vec![crate::env::FaultSpec { k: rng.log_uniform(8, 3000), err: rng.below(9) as u8 }];
     }
-    Case::Cursor(CursorCase { spec, env, steps, fresh_each: false, v1: false })
+    let sparse_hole = crate::props_file::gen_hole(rng, 15);
+    Case::Cursor(CursorCase { spec, env, steps, fresh_each: false, v1: false, sparse_hole })
 }
 
 pub fn check_c03(case: &Case, st: &mut Stats) -> Verdict {
@@ -326,7 +328,7 @@ pub fn gen_c16(rng: &mut Rng, tier: Tier) -> Case {
         };
         steps.push(CursorStep { cur, op });
     }
-    Case::Cursor(CursorCase { spec, env: gen::gen_env(rng, true), steps, fresh_each: false, v1: false })
+    Case::Cursor(CursorCase { spec, env: gen::gen_env(rng, true), steps, fresh_each: false, v1: false, sparse_hole: None })
 }
 
 pub fn check_c16(case: &Case, st: &mut Stats) -> Verdict {
@@ -347,9 +349,6 @@ pub fn check_c16(case: &Case, st: &mut Stats) -> Verdict {
     let bound = 2 * (levels + 2);
     let flen = file.len() as u64;
     let tl = d.trailer_len as u64;
-    let extent_of = |off: u64| -> Option<(u64, u64)> {
-        d.blocks.binary_search_by_key(&off, |b| b.off).ok().map(|i| (d.blocks[i].off, d.blocks[i].end()))
-    };
     for (i, rec) in r.recs.iter().enumerate() {
         if rec.res.is_panic() || rec.res.is_err() {
             return viol("C16", &format!("err.{}", rec.op), format!("call #{} {} -> {}", i, rec.op, rec.res.short()));
@@ -376,45 +375,50 @@ pub fn check_c16(case: &Case, st: &mut Stats) -> Verdict {
                 }
             }
             _ => {
+                // A block load = a maximal run of consecutive reads inside one block's extent. Seeks
+                // are free (the statement bounds loaded blocks, not positioning calls); a read that is
+                // not inside a single block (it spans blocks or hits a gap) is a scan.
                 let mut loads = 0u64;
-                let mut ext: Option<(u64, u64)> = None;
+                let mut cur_block: Option<u64> = None;
                 for e in evs {
                     match e.kind {
                         IoKind::Seek => {
-                            if e.out < 0 {
-                                continue;
-                            }
-                            loads += 1;
-                            ext = extent_of(e.out as u64);
-                            if ext.is_none() {
-                                return viol(
-                                    "C16",
-                                    "seek-not-a-block",
-                                    format!("call #{} {} sought offset {} which is not the start of a block", i, rec.op, e.out),
-                                );
-                            }
+                            // a new positioning call ends the current run even if it targets the same block again
+                            cur_block = None;
                         }
                         IoKind::Read => {
                             if e.out <= 0 {
                                 continue;
                             }
-                            match ext {
-                                None => {
-                                    return viol(
-                                        "C16",
-                                        "read-without-seek",
-                                        format!("call #{} {} read at {} without seeking to a block first", i, rec.op, e.off),
-                                    )
+                            let (s0, e0) = (e.off, e.off + e.out as u64);
+                            if s0 >= flen - tl {
+                                continue; // trailer bytes: not a block
+                            }
+                            let idx = match d.blocks.binary_search_by(|b| {
+                                if b.end() <= s0 {
+                                    std::cmp::Ordering::Less
+                                } else if b.off > s0 {
+                                    std::cmp::Ordering::Greater
+                                } else {
+                                    std::cmp::Ordering::Equal
                                 }
-                                Some((s, en)) => {
-                                    if e.off < s || e.off + e.out as u64 > en {
-                                        return viol(
-                                            "C16",
-                                            "read-outside-block",
-                                            format!("call #{} {} read [{}, {}) outside the sought block [{}, {})", i, rec.op, e.off, e.off + e.out as u64, s, en),
-                                        );
-                                    }
+                            }) {
+                                Ok(i) => i,
+                                Err(_) => {
+                                    return viol("C16", "read-outside-block", format!("call #{} {} read [{}, {}) which is inside no block", i, rec.op, s0, e0))
                                 }
+                            };
+                            let b = &d.blocks[idx];
+                            if e0 > b.end() {
+                                return viol(
+                                    "C16",
+                                    "read-outside-block",
+                                    format!("call #{} {} read [{}, {}) across the end of the block [{}, {})", i, rec.op, s0, e0, b.off, b.end()),
+                                );
+                            }
+                            if cur_block != Some(b.off) {
+                                loads += 1;
+                                cur_block = Some(b.off);
                             }
                         }
                         _ => {}
